@@ -36,11 +36,12 @@ def P(s):
 
 # Python callables handed to the operators (their source is recovered from THIS file by the library): the same function object is
 # used by every step of a history, on streams of different item types (on the typed dataset the follower fills in declared defaults).
-def _keep(f):
+def Select(f):
+    "the library finds a lambda's source among the arguments of calls named like the operator it was handed to"
     return f
 
 
-SHARED_SEL = _keep(lambda e: e.Jets().Select(lambda j: j.pt()))
+SHARED_SEL = Select(lambda e: e.Jets().Select(lambda j: j.pt()))
 
 
 def shared_cut(e): return e.Jets().Count() > 1  # noqa: E704
@@ -103,7 +104,9 @@ def history(k, ops, pars, vals):
         par = streams[pars[i] % len(streams)]
         try:
             s = step(par, ops[i], vals[i], lams)
-        except ValueError:
+        except ValueError as e:
+            if ops[i] in (10, 11):
+                return "the shared Python function was refused: %s" % e
             continue   # a refused derivation (e.g. Where on a non-boolean) creates nothing - but must not have changed anything either
         finally:
             pass
